@@ -64,7 +64,10 @@ func runC03(w *mc.Worker) {
 	runVarSeqSpace(w, "vars-L2", 1, 2, func(c *seqCase, vars map[string]string, bal env.Bal) {
 		judgeSeqCase(w, c, vars, bal, owns, nontriv, true)
 	})
-	runEdgeSeqSpace(w, "edge-L2", 1, 2, func(c *seqCase, bal env.Bal) { judgeSeqCase(w, c, nil, bal, owns, nontriv, true) })
+	runEdgeSeqSpace(w, "edge-L2", 1, 2, func(c *seqCase, bal env.Bal) {
+		judgeSeqCase(w, c, nil, bal, owns, nontriv, true)
+		judgeSeqCaseMode(w, c, nil, bal, owns, nontriv, false, env.Sparse)
+	})
 	runOriginSeqSpace(w, "origin-L2", 1, 2, []string{"x", "a"}, func(c *seqCase, oc *originCase) {
 		judgeSeqCaseX(w, c, nil, oc, owns, nontriv, true, env.Exact)
 	})
